@@ -91,6 +91,7 @@ type MRealm struct {
 	MetaStrict    bool
 	Sess          map[int]*MSess
 	Subs          []*MSub
+	NoKill        bool // this realm was configured without the kill procedures
 	Regs          []*MReg
 	Calls         []*MCall
 	Lenient       bool // do not model identity disclosure (left to C12)
